@@ -139,12 +139,13 @@ CHECKS = {
              'unwrap/expect consumes an input-dependent fallible producer; (3) no call-graph cycle (input-depth recursion); (4) a byte '
              'cursor stepped by a constant on a cycle that reads the text at it steps only past characters proven ASCII on that '
              'path (literal match, range bound, is_ascii* or ASCII lookahead), so it stays on a character boundary; (5) every '
-             'unwrap of a peek S[k..].chars().next() is reached only with k < len(S) (linear bounds domain + 3 library postconditions).',
+             'unwrap of a peek S[k..].chars().next() is reached only with k < len(S) (linear bounds domain + 3 library postconditions); '
+             '(6) no Span bound is computed from the length of an owned String (a processed copy of the text).',
         note='Decides "never hangs in a scanner loop", "no panic from unwrapping an input-dependent failure" and "no unbounded '
              'recursion", plus the constant-step instance of the char-boundary clause; does NOT decide absence of slicing/index '
              'panics in general nor that every span lies on a char boundary. '
              '4 facts are trusted with reasons (rules/progress.py TRUSTED_FN/TRUSTED_POS) and reported in the evidence notes when used. '
-             'One known finding (array nesting recursion). Trusted: ' + TB,
+             'Two known findings (array nesting recursion; the action span built from a trimmed copy). Trusted: ' + TB,
         technique='per-loop cursor-progress analysis on MIR (symbolic cycle enumeration + interprocedural return-path evaluation), deny-list value-flow for unwrap, call-graph SCCs',
         ref='§4 C12, §3 A6'),
     'C14': dict(
